@@ -122,6 +122,7 @@ type VerifRuleDump struct {
 	Capture         bool
 	MultiMatch      bool
 	HasChain        bool
+	SecMark         string
 	Raw             string
 	Chain           *VerifRuleDump
 }
@@ -144,7 +145,7 @@ func (r *Rule) VerifDump() *VerifRuleDump {
 	d := &VerifRuleDump{
 		ID: r.ID_, ParentID: r.ParentID_, Phase: int(r.Phase_), Tags: append([]string{}, r.Tags_...), Rev: r.Rev_, Version: r.Version_,
 		Severity: r.Severity_.String(), Maturity: r.Maturity_, Accuracy: r.Accuracy_, Status: r.DisruptiveStatus,
-		Log: r.Log, Audit: r.Audit, Capture: r.Capture, MultiMatch: r.MultiMatch, HasChain: r.HasChain, Raw: r.Raw_,
+		Log: r.Log, Audit: r.Audit, Capture: r.Capture, MultiMatch: r.MultiMatch, HasChain: r.HasChain, SecMark: r.SecMark_, Raw: r.Raw_,
 	}
 	if r.Msg != nil {
 		d.Msg = r.Msg.String()
